@@ -52,7 +52,7 @@ class Plan:
                 import signal
 
                 os.killpg(os.getpgid(0), signal.SIGINT)
-                time.sleep(1.0)  # the handler (or default KeyboardInterrupt) acts while we wait
+                time.sleep(0.5)  # the default KeyboardInterrupt is raised while we wait
             else:
                 raise InjectedInterrupt(f"injected at {fn} call {idx} of chain {tag} iteration {CTX['iter']}")
 
@@ -180,7 +180,7 @@ class StartMark(_Proxy):
     """First transition of an iteration: marks the iteration start for this chain."""
 
     def sample(self, state, rng):
-        tag = int(state.tag)
+        tag = int(getattr(state, "tag", -1))
         it = _read_iter(self.logdir, tag)
         CTX.update(tag=tag, iter=it, phase="iter")
         CTX["calls"].clear()
@@ -193,7 +193,7 @@ class EndLog(_Proxy):
     """Last transition of an iteration: logs the post-iteration state and statistics."""
 
     def sample(self, state, rng):
-        tag = int(state.tag)
+        tag = int(getattr(state, "tag", -1))
         if CTX["tag"] != tag or CTX["phase"] != "iter":  # used without a StartMark proxy
             CTX.update(tag=tag, iter=_read_iter(self.logdir, tag), phase="iter")
             CTX["calls"].clear()
@@ -278,6 +278,8 @@ def build(cfg: dict, logdir: str):
             inits.append(mici.states.ChainState(pos=pos, mom=None, dir=1, tag=c))
         elif init_kind == "dict":
             inits.append({"pos": pos, "mom": mom, "dir": 1, "tag": c})
+        elif init_kind == "array":
+            inits.append(pos)
         else:
             raise ValueError(init_kind)
     trace_funcs = [TraceFn(k, plan, system) for k in cfg.get("trace", ["pos"])]
@@ -355,7 +357,7 @@ def run(cfg: dict, workdir: str | None = None, post_build=None):
     CTX["phase"] = None
     recs = read_logs(logdir)
     res = {"out": out, "recs": recs, "exc": exc, "system": system, "integrator": integ, "trace_funcs": trace_funcs,
-           "call_log": read_call_log(logdir), "kw": kw, "workdir": workdir, "own_workdir": own, "logdir": logdir}
+           "call_log": read_call_log(logdir), "sampler_transitions": sampler.transitions, "kw": kw, "workdir": workdir, "own_workdir": own, "logdir": logdir}
     return res
 
 
